@@ -127,6 +127,9 @@ class Fn:
             args = "[" + "; ".join(self.expr(a) for a in inner[1:]) + "]"
             if callee.get("kind") == "DeclRefExpr" and callee.get("referencedDecl", {}).get("kind") == "FunctionDecl":
                 return "(XCall %s %s)" % (q(callee["referencedDecl"]["name"]), args)
+            # `(*f)(x)` and `f(x)` are the same call in C: the callee of a call through a pointer is printed without the redundant dereference
+            while callee.get("kind") == "UnaryOperator" and callee.get("opcode") == "*" and callee.get("inner"):
+                callee = strip(callee["inner"][0])
             return "(XCallPtr %s %s)" % (self.expr(callee), args)
         if k == "UnaryOperator":
             op = n.get("opcode")
